@@ -179,3 +179,10 @@ pub(crate) fn flock_holder() -> Option<i32> {
 pub(crate) fn io_error_display(_this: &io::Error, _f: &mut core::fmt::Formatter<'_>) -> core::fmt::Result {
     Ok(())
 }
+
+/// `Vec::with_capacity(n)` -> `Vec::new()`: capacity is only a hint, but
+/// `run_inner` pre-allocates its batch vector with capacity 1024 (a 57 KB heap
+/// object that CBMC flattens into the formula at every access).
+pub(crate) fn vec_with_capacity<T>(_capacity: usize) -> Vec<T> {
+    Vec::new()
+}
